@@ -92,6 +92,32 @@ void srv_sweep(void)
 		}
 }
 
+/* the two halves of the sweep separately: top of the select loop / bottom of the loop */
+void srv_sweep_clear(void)
+{
+	int userid;
+	for (userid = 0; userid < created_users; userid++) {
+		if (users[userid].active && !users[userid].disabled &&
+		    users[userid].last_pkt + 60 > time(NULL)) {
+			users[userid].q_sendrealsoon_new = 0;
+		}
+	}
+}
+
+void srv_sweep_send(void)
+{
+	int userid;
+	for (userid = 0; userid < created_users; userid++)
+		if (users[userid].active && !users[userid].disabled &&
+		    users[userid].last_pkt + 60 > time(NULL) &&
+		    users[userid].q_sendrealsoon.id != 0 &&
+		    users[userid].conn == CONN_DNS_NULL &&
+		    !users[userid].q_sendrealsoon_new) {
+			int dns_fd = get_dns_fd(&srv_fds, &users[userid].q_sendrealsoon.from);
+			send_chunk_or_dataless(dns_fd, userid, &users[userid].q_sendrealsoon);
+		}
+}
+
 void srv_handle_null_request(struct query *q, int domain_len)
 {
 	handle_null_request(11, 10, &srv_fds, q, domain_len);
